@@ -182,7 +182,7 @@ def guard_cut(chk, record=True):
     # (iv) log_message -> Action.log -> write keeps K
     lm = ctx.func("_action", "log_message")
     alog = ctx.func("_action", "Action.log")
-    pos = [a.arg for a in lm.node.args.posonlyargs + lm.node.args.args]
+    pos = lm.pos_params
     if not pos or pos[0] != K:
         problems.append("log_message's first parameter is %r, but the report passes its type under keyword %r" % (pos[:1], K))
     else:
@@ -192,7 +192,7 @@ def guard_cut(chk, record=True):
                 passes = True
         if not passes or stores_to_name(lm, pos[0]):
             problems.append("log_message does not pass its message_type parameter unchanged to Action.log")
-    apos = [a.arg for a in alog.node.args.args]
+    apos = alog.pos_params
     wcalls = [(n, c) for n in ctx.cfg(alog).live for c, _m in calls_in_node(n)
               if isinstance(c.func, ast.Attribute) and c.func.attr == "write" and c.args and isinstance(c.args[0], ast.Name)]
     if not wcalls or len(apos) < 2:
@@ -254,7 +254,7 @@ def report_dict(chk):
                     for kw in c.keywords:
                         if kw.arg:
                             d[kw.arg] = kw.value
-                    lmpos = [a.arg for a in lm.node.args.args]
+                    lmpos = lm.pos_params
                     for i, a in enumerate(c.args):
                         if i < len(lmpos):
                             d[lmpos[i]] = a
@@ -403,7 +403,7 @@ def rule_report_logger(chk):
     if not ok1:
         problems.append("Logger.write does not pass itself to send() as the writing logger")
     # 2. send puts it into the report
-    lparam = [a.arg for a in send.node.args.args][2] if len(send.node.args.args) > 2 else None
+    lparam = send.pos_params[2] if len(send.pos_params) > 2 else None
     ok2 = False
     for n in iter_own_nodes(send.node):
         if isinstance(n, ast.Assign) and isinstance(n.targets[0], ast.Subscript) and isinstance(n.targets[0].slice, ast.Constant) and n.targets[0].slice.value == KEY \
